@@ -59,6 +59,32 @@ def gen_lines(r, n: int, p_corrupt: float, ascii_only: bool = False, p_schema: f
     return out
 
 
+def array_frame(r) -> str:
+    """A well-formed array of 1-8 per-zone elements from the kind of device that sends it."""
+    code = r.choice(["0009", "000A", "2309", "30C9", "2249", "22C9", "3150"])
+    n = r.randrange(1, 9)
+    idxs = sorted(r.sample(range(12), n)) if code != "0009" else None
+    t = lambda: f"{r.choice([r.randrange(500, 3500), 0x7FFF, 0x07D0, 0x0000]):04X}"  # noqa: E731
+    els = []
+    for j in range(n):
+        z = f"{idxs[j]:02X}" if idxs else ["FC", "F9", "FA", "00", "01", "02", "03", "04"][j]
+        if code == "0009":
+            els.append(f"{z}{r.choice(['00', '01'])}FF")
+        elif code == "000A":
+            els.append(f"{z}{r.choice(['00', '10', '08', '18'])}{r.randrange(500, 2100):04X}{r.randrange(2100, 3500):04X}")
+        elif code in ("2309", "30C9"):
+            els.append(f"{z}{t()}")
+        elif code == "2249":
+            els.append(f"{z}{r.randrange(500, 3500):04X}{r.randrange(500, 3500):04X}{r.randrange(0, 1440):04X}")
+        elif code == "22C9":
+            els.append(f"{z}{r.randrange(500, 2000):04X}{r.randrange(2000, 3500):04X}01")
+        elif code == "3150":
+            els.append(f"{z}{r.randrange(0, 201):02X}")
+    src = {"2249": "23:100224", "22C9": "02:001107", "3150": "02:001107"}.get(code, "01:145038")
+    pl = "".join(els)
+    return f"{gen.rssi(r)}  I --- {src} --:------ {src} {code} {len(pl) // 2:03d} {pl}"
+
+
 def generate(plan) -> None:
     sc = plan.d["scenario"]
     r = plan.rng("gen")
@@ -84,6 +110,8 @@ def generate(plan) -> None:
     elif sc == "decode":
         k["p_corrupt"] = 0.0
         plan.d["ops"] = gen_lines(r, n, 0.0)
+        for _ in range(r.choice([1, 2, 4])):
+            plan.d["ops"].insert(r.randrange(len(plan.d["ops"]) + 1), {"op": "line", "text": array_frame(r), "src": "array"})
         k["gap_days"] = r.choice([0, 0, 1, 400])
     elif sc == "logrt":
         k["rotate"] = r.choice(["none", "none", "bytes", "midnight"])
@@ -302,6 +330,7 @@ async def run_file(ctx, as_dict: bool) -> None:
         kw = {"packet_log": io.TextIOWrapper(io.BytesIO(text.encode("ascii", "replace")), encoding="ascii")}
     proto, tr = await P.create_stack(handler, **kw)
     err = None
+    await asyncio.sleep(0.001)  # connection_made() is call_soon'ed; only then is there a future to wait on
     try:
         err = await proto.wait_for_connection_lost(timeout=60)
     except exc.TransportError as e:
